@@ -81,6 +81,25 @@ Theorem C15_invalid_settings_rejected : bogus_rejected = true.
 Proof. exact invalid_settings_rejected. Qed.
 Print Assumptions C15_invalid_settings_rejected.
 
+(** cross-field checks of __attrs_post_init__ (extracted from the source): none of them is nested under
+    another test, so an invalid combination is rejected at construction whatever the window-mode switches
+    are; ISIMIP rejects a missing distribution unless non-parametric mapping is chosen, the running-window
+    debiasers reject a step longer than the window *)
+Theorem C15_cross_field_rejections_unconditional : rejections_unconditional = true.
+Proof. exact rejections_unconditional_ok. Qed.
+Print Assumptions C15_cross_field_rejections_unconditional.
+
+Theorem C15_isimip_rejects_missing_distribution :
+  In (""%string, "self.distribution is None and (not self.nonparametric_qm)"%string) (post_init_rejections ISIMIP).
+Proof. exact isimip_rejects_missing_distribution. Qed.
+Print Assumptions C15_isimip_rejects_missing_distribution.
+
+Theorem C15_window_step_le_length_enforced : forall d,
+  In d [LinearScaling; QuantileMapping; ScaledDistributionMapping; CDFt; ECDFM; QuantileDeltaMapping] ->
+  In (""%string, "self.running_window_step_length > self.running_window_length"%string) (post_init_rejections d).
+Proof. exact window_step_le_length_enforced. Qed.
+Print Assumptions C15_window_step_le_length_enforced.
+
 (** non-vacuity *)
 Example C15_nonvacuous :
   from_variable_str CDFt "TasRange" = Warn /\ from_variable_str ISIMIP "prsn" = RaiseValueError /\
